@@ -187,6 +187,19 @@ CLAIMED = {
              'property restricts them); the two regular expressions must have the modelled shape (else exit 2); '
              'Counter\'s dropping of non-positive totals is not modelled.',
         ref='DESIGN.md section 4 C14'),
+    'C16': dict(
+        technique='abstract interpretation of get_net_comp with scipy.optimize.minimize as an uninterpreted, recording '
+                  'solver; symbolic differentiation of the objective and constraint handed to it',
+        text='NARROW CLAIM - decides only the clauses visible in the code: a failed optimisation (success=False) is '
+             'signalled by a warning or exception before the result is returned; the objective handed to the solver is '
+             'sum x_i(g_i + ln(x_i p/n)) with the species\' own G/RT in the order of the amounts and its Jacobian is the '
+             'exact gradient (2-4 species); the equality constraint is x.M minus the feed element totals and its '
+             'Jacobian is its derivative (M transposed); amounts are bounded below by a positive constant; mole '
+             'fractions are x/sum(x); the feed totals are computed from the final element matrix. It does NOT decide '
+             'atom conservation, optimality or order independence of the composition SLSQP returns.',
+        note=STATIC_NOTE + 'SLSQP is an uninterpreted function; everything numeric about the solution is out of reach '
+             'of static analysis.',
+        ref='DESIGN.md section 4 C16'),
     'C17': dict(
         technique='abstract interpretation of the real constructor/insert/pop/_set_intercepts/get_UoRT under an '
                   'ordering oracle, exhaustive enumeration of operation sequences up to a bound, comparison with a '
